@@ -26,6 +26,14 @@ reg("C02", ["E1"], E1T,
     "special soundness goals (old state opened, nonce, channel id, close tag, lock linkage, balance update by exactly the amount, range link, pay token is a PS signature on the extracted old state), "
     "integer obligation on the verifier's own digit weights, and binding of every non-response atom / statement component.",
     TB + "; digit signatures exist only for 0..127 and PS unforgeability are assumptions", "DESIGN.md section 4, C02")
+reg("C03", ["E1"], E1T,
+    "Bounded model checking of the customer state machine: at each of the four merchant-reply positions a fully symbolic reply (two arbitrary G1 elements through the real Deserialize) is refused exactly when its unblinded form is not a valid signature on the expected (close) state, "
+    "accepted only when it is, and a refused reply leaves the serialised state identical; from every stage (inactive, ready, started, locked, ready after payment) the closing message carries the ledger's balances, a lock not disclosed in any lock message, and the merchant's close check is forced to accept.",
+    TB + "; histories of one payment per run (longer histories outside the bound)", "DESIGN.md section 4, C03")
+reg("C04", ["E1"], E1T,
+    "Bounded model checking of complete honest runs (establish, payments, close) for balances/amounts on the boundary lattice: every verifier-side comparison on the run is proved forced for all random draws (validity query per decision), "
+    "reported balances are compared with 128-bit ledger arithmetic at every stage, out-of-range payments return the documented error with an unchanged state and no proof transcript hashed.",
+    TB + "; the for-all over integers of the arithmetic itself is C17 (Kani)", "DESIGN.md section 4, C04")
 reg("C05", ["E1"], E1T,
     "Bounded model checking of Unrevoked::complete_payment on a fully symbolic candidate revocation pair and blinding factor: Ok <=> the Pedersen opening relation on the commitment taken from the accepted pay proof, "
     "the token is a blind signature on the proof's state commitment, a refused attempt hands back a pending payment that the honest lock message completes for every draw; "
